@@ -54,6 +54,15 @@ Theorem C18_isolation : forall k evs,
 Proof. exact server_isolation. Qed.
 Print Assumptions C18_isolation.
 
+(* ... and per-socket conservation under every interleaving of sockets *)
+Theorem C18_server_conserve : forall (k : nat) (evs : list (nat * list N)),
+  exists ls tail, wf_lines ls /\ noLF tail /\
+    projl k (fst (run_srv empty_bufs evs)) = map fst ls /\
+    snd (run_srv empty_bufs evs) k = tail /\
+    concat (proj k evs) = join_lines ls tail.
+Proof. exact server_conserve. Qed.
+Print Assumptions C18_server_conserve.
+
 (* every accepted IRC message is exactly one CRLF-terminated line without CR, LF, NUL inside *)
 Theorem C18_one_line : forall m b, to_str m = Some b ->
   exists body, b = body ++ [13; 10] /\ clean body.
